@@ -41,16 +41,22 @@ let c02_find_enum (f : Model.file) (name : Model.str) =
     | _ :: r -> go r in
   go (Model.leaves_of f.Model.fl_items)
 
-(* (c02 LANG ACRONYMS FILE T ENUM OBS) -> (dom known good expect) *)
+(* (c02 LANG ACRONYMS FILE T ENUM OBS) -> (dom known good expect)
+   ACRONYMS: true/false (the list is not empty), or the LIST itself: for Go the EXACT class known_C02_go is then used *)
 let c02 args =
   match args with
   | [lang; acr; file; t; name; obs] ->
-    let l = c02_lang lang and acr = to_bool acr and f = to_file file and t = to_list to_str t in
+    let l = c02_lang lang and f = to_file file and t = to_list to_str t in
     let (attrs, vs) = c02_find_enum f (to_str name) in
     let ds = to_list c02_decl obs in
     let x = Model.c02_expect_src uc t attrs vs in
+    let known =
+      match acr, l with
+      | L _, Model.Go -> Model.known_C02_go (to_list to_str acr) uc t attrs vs
+      | L a, _ -> Model.known_C02 l (a <> []) uc t attrs vs
+      | _, _ -> Model.known_C02 l (to_bool acr) uc t attrs vs in
     L [ of_bool (Model.dom_C02 uc t attrs vs);
-        of_opt (fun c -> A (coqstring c)) (Model.known_C02 l acr uc t attrs vs);
+        of_opt (fun c -> A (coqstring c)) known;
         (match x with Some x -> of_bool (Model.good_C02 l x ds) | None -> A "none");
         of_opt c02_of_expect x ]
   | _ -> raise (Bad "c02 args")
